@@ -36,6 +36,9 @@ var c09ReadOnly = []string{
 	`l.combine((p,q)->p).size()`, `l.iir(e->e,(e,o)->o).size()`, `l.visit(0,(v,e)->v+e)`, `l.present(e->e=x)`, `l.last()`, `x ~ l`, `l.cross(l,(p,q)->p).size()`,
 	`l.merge(l,(p,q)->p<q).size()`, `l.multiUse({a:t->t.size(),b:t->t.top(1).size()}).a`, `l.compact((p,q)->p=q).size()`, `l.mapReduce(0,(s,e)->s+e)`, `l.sum()`,
 }
+// c09FullReadOnly: thorough tier - every read-only use is a choice (job kind "listfull")
+var c09FullReadOnly bool
+
 var c09MapOps = []string{"put", "replaceIn", "replaceOut", "merge", "eval", "map", "accept", "putput"}
 
 func c09Jobs(tier string, seed int64) []string {
@@ -47,11 +50,13 @@ func c09Jobs(tier string, seed int64) []string {
 	// histories of three operations multiply to ~10^5 paths per first operation: thorough runs them for
 	// three list and two map first operations, two operations otherwise
 	for i := range c09ListOps {
-		st := steps
-		if st == 3 && !(c09ListOps[i] == "append" || c09ListOps[i] == "concat" || c09ListOps[i] == "top") {
-			st = 2
+		// (list histories of three operations exceed 200k paths per first operation: not registered;
+		// thorough: two operations with every read-only use as a choice)
+		kind := "list"
+		if steps == 3 {
+			kind = "listfull"
 		}
-		jobs = append(jobs, "list:"+strconv.Itoa(st)+":"+strconv.Itoa(i))
+		jobs = append(jobs, kind+":2:"+strconv.Itoa(i))
 	}
 	for i := range c09MapOps {
 		st := steps
@@ -155,7 +160,8 @@ func c09Run(job string) {
 		}())
 		sym.Reach("end")
 		return
-	case "list":
+	case "list", "listfull":
+		c09FullReadOnly = parts[0] == "listfull"
 		steps, _ := strconv.Atoi(parts[1])
 		first, _ := strconv.Atoi(parts[2])
 		c09ListHistory(fg, steps, first)
@@ -257,7 +263,7 @@ func c09ListHistory(fg *value.FunctionGenerator, steps, first int) {
 		case "readonly":
 			// quick: the first 8 (the copying ones first); thorough: all
 			nro := 8
-			if steps >= 3 {
+			if steps >= 3 || c09FullReadOnly {
 				nro = len(c09ReadOnly)
 			}
 			ro := c09ReadOnly[sym.Choice("ro"+strconv.Itoa(s), nro)]
